@@ -227,6 +227,7 @@ func (p *Parser) Parse(resource string, reader reader.Reader) (*sysl.Module, err
 
 	retrieved := retrievedList{make(map[retrievedListIndex]*fileInfo), sync.Mutex{}}
 
+	verifEvent(0, "begin", resource, 0, 0)
 	if err := p.collectSpecs(
 		context.Background(),
 		newImportDef(resource),
@@ -235,11 +236,16 @@ func (p *Parser) Parse(resource string, reader reader.Reader) (*sysl.Module, err
 		p.MaxImportDepth,
 		0,
 	); err != nil {
+		verifEvent(0, "end", resource, 0, 1)
 		return nil, err
 	}
 
 	specs := []srcInput{}
 	flattenSpecs(&specs, resource, &retrieved)
+	for i := range specs {
+		verifEvent(0, "flat", specs[i].src.filename, i, 0)
+	}
+	verifEvent(0, "end", resource, 0, 0)
 
 	if p.OperationSummary {
 		out := struct {
@@ -338,6 +344,7 @@ func (p *Parser) parseSpecs(specs []srcInput, listener *TreeShapeListener) (*sys
 
 		walker := antlr.NewParseTreeWalker()
 		walker.Walk(listener, tree)
+		verifAfterWalk(listener, src.filename)
 	}
 
 	listener.lintAppDefs()
@@ -375,7 +382,10 @@ func (p *Parser) collectSpecs(
 	retrieved *retrievedList,
 	maxImportDepth, currentImportDepth int,
 ) error {
+	vt := verifEnter(ctx, source.filename, currentImportDepth)
+	defer verifEvent(vt, "return", source.filename, currentImportDepth, 0)
 	if maxImportDepth > 0 && currentImportDepth >= maxImportDepth {
+		verifEvent(vt, "cut", source.filename, currentImportDepth, 0)
 		return nil
 	}
 
@@ -383,6 +393,7 @@ func (p *Parser) collectSpecs(
 	retrieved.mutex.Lock()
 	if fi, has := retrieved.l[filenameIndex]; has {
 		retrieved.mutex.Unlock()
+		verifEvent(vt, "lost", source.filename, currentImportDepth, 0)
 
 		if !p.NoDifferentVersionCheck {
 			appname1 := strings.ReplaceAll(fi.src.src.appname, " :: ", "::")
@@ -428,6 +439,7 @@ func (p *Parser) collectSpecs(
 	fi.src.src = source
 	retrieved.l[filenameIndex] = fi
 	retrieved.mutex.Unlock()
+	verifEvent(vt, "won", source.filename, currentImportDepth, 0)
 
 	content, hash, branch, err := reader.ReadHashBranch(ctx, source.filename)
 	if err != nil {
@@ -455,6 +467,7 @@ func (p *Parser) collectSpecs(
 
 	fi.imports = children
 
+	ctx = verifSpawn(ctx, vt, len(children))
 	g := new(errgroup.Group)
 	for _, c := range children {
 		c := c
@@ -463,6 +476,7 @@ func (p *Parser) collectSpecs(
 		})
 	}
 
+	verifEvent(vt, "wait", source.filename, currentImportDepth, len(children))
 	err = g.Wait()
 	if err != nil {
 		return syslutil.Exitf(ImportError, fmt.Sprintf(
